@@ -4,8 +4,8 @@ func init() {
 	lib := func(rule string) propCfg {
 		return propCfg{
 			level:     "exploration",
-			quick:     tierCfg{runs: 6000, budget: 40},
-			thorough:  tierCfg{runs: 600000, budget: 900},
+			quick:     tierCfg{runs: 60000, budget: 60},
+			thorough:  tierCfg{runs: 3000000, budget: 1500},
 			rule:      rule,
 			technique: "deterministic simulation: seeded library histories on a simulated clock checked against a reference model",
 		}
@@ -16,8 +16,8 @@ func init() {
 	props["C04"] = lib("each run is one layout, one clock value and 8-40 queries (boundary x boundary ages around now and every retention edge, random pairs, degenerate, sub-step, from>until, from=0; every archive id in [-3,n+2] and best), each issued against a never-written, a partially written and a fully written file of the layout and compared with the shape model. Non-trivial: a degenerate window on a never-written archive, a window clamped at both ends, or best selecting a coarser archive; distinct = distinct case hash")
 	cli := func(rule string) propCfg {
 		c := lib(rule)
-		c.quick = tierCfg{runs: 2500, budget: 45}
-		c.thorough = tierCfg{runs: 150000, budget: 1200}
+		c.quick = tierCfg{runs: 20000, budget: 60}
+		c.thorough = tierCfg{runs: 2000000, budget: 1500}
 		c.technique = "deterministic simulation: CLI command executed in-process on a simulated clock under the seeded scheduler, post-conditions checked by library-level reads at the command's clock value"
 		return c
 	}
@@ -29,36 +29,36 @@ func init() {
 	props["C20"] = cli("each run executes generate for a seeded layout, maximum, fill on/off at an instant aligned or unaligned to each archive's step (optionally onto an existing path) and checks header, emptiness, completeness, value range and that every coarser slot fully covered by retained finer slots equals their sum. Non-trivial: a filled file or an existing destination was checked; distinct = distinct case hash")
 	c16 := cli("each run is one cell of the grid {view, view-raw, diff, copy, sum, sum-copy, sum-diff, generate} x {all, each id, -2, n} x {default, past, future, beyond the finest / each archive's retention, degenerate, from>until} x {none, text-out unopenable, text-out /dev/full, source missing, source corrupt, destination parent is a file, destination exists, destination missing} x {no text-out, stdout, file}, local and (for read commands) remote, struct and Parse(args), on a seeded world; a recovered panic or a success without evidence of the work is a violation. Non-trivial: the cell executed; distinct = distinct case hash; distinct_states = distinct grid cells")
 	c16.level = "fault_enumeration"
-	c16.quick = tierCfg{runs: 4000, budget: 45}
-	c16.thorough = tierCfg{runs: 200000, budget: 1200}
+	c16.quick = tierCfg{runs: 30000, budget: 60}
+	c16.thorough = tierCfg{runs: 3000000, budget: 1500}
 	props["C16"] = c16
 	c12 := cli("each run serves a seeded tree through the real handlers of ServerCommand over the simulated wire and executes 2-6 read commands (view, view-raw, sum, diff and copy with a remote source; existing and missing files, patterns matching nothing, every archive selection, windows, clock advances between commands) twice at the same simulated instant, against the directory and against the URL; text output, outcome class and (copy) resulting destination bytes must be identical. In a separate share of runs one response is damaged on the wire (truncated, closed, error status, garbage): the command must fail or be unaffected, and the next fault-free request must give the local answer. Non-trivial: a command pair involving at least one HTTP request was compared; distinct = distinct case hash")
 	c12.technique = "deterministic simulation: real net/http client and real server handlers over an in-memory pipe inside a synctest bubble, paired local/remote execution at one simulated instant, wire faults"
 	props["C12"] = c12
 	c17 := cli("each run is one of three workloads under the seeded scheduler with statement-level preemption: K=2-6 actors fetching arbitrary archives/windows on one shared handle (every result compared with the same fetch executed alone); sum over 2-12 files with its errgroup workers interleaved (output compared with the unpreempted run); K=2-6 clients issuing view / view-raw / sum / diff requests in parallel against the server with handler goroutines interleaved (every output compared with the same command run alone). In addition the same workloads run free-running under the race detector (runtime monitoring, the interleaving is not decided by the seed). Non-trivial: a run in which preemption actually interleaved the actors; distinct = distinct case hash; distinct interleavings = distinct context-switch signatures")
 	c17.race = true
-	c17.quick = tierCfg{runs: 2000, budget: 45}
-	c17.thorough = tierCfg{runs: 200000, budget: 1200}
+	c17.quick = tierCfg{runs: 4000, budget: 60}
+	c17.thorough = tierCfg{runs: 400000, budget: 1500}
 	c17.technique = "deterministic simulation: seeded scheduler interleaving fetches on a shared handle, sum's workers and HTTP handler goroutines at statement granularity, results compared with sequential execution; plus a free-running -race pass (runtime monitoring) for race freedom itself"
 	props["C17"] = c17
 	c15 := cli("each run takes one valid file produced by a seeded fill history (or the real response of a remote view / view-raw / sum / diff over the simulated wire) and applies, one after the other, every truncation length (all below 600 bytes, the last 4, 1 in 20 beyond), every 32-bit header field x 13 boundary values (0, 1, 2, 2^31-1, 2^31, 2^32-1, values whose product with 12 wraps 32 bits, ...), for wire bodies also the series/point-list framing fields with 64-bit boundary values, 48 seeded bit flips, extension and zeroing; the damaged object is opened and used (fetch of every archive, raw dump, single and batch update, Sync; or decoded by the real client), also with the damage applied under an open handle. Each operation must return without panic, within a statement budget, having allocated at most 64 KiB + 64 x input bytes; a worker killed by the runtime under its address-space cap is attributed to the journaled case. Non-trivial: a damaged object that still opened / decoded was exercised; distinct = distinct case hash")
 	c15.level = "fault_enumeration"
-	c15.quick = tierCfg{runs: 400, budget: 45}
-	c15.thorough = tierCfg{runs: 40000, budget: 1200}
+	c15.quick = tierCfg{runs: 600, budget: 60}
+	c15.thorough = tierCfg{runs: 60000, budget: 1500}
 	c15.technique = "deterministic simulation with fault injection: stored-byte and wire corruption enumerated per sampled object, allocation and statement budgets, address-space cap per worker"
 	props["C15"] = c15
 	c13 := lib("each run is 2-5 actors (writers doing read-modify-write of a generation stamp over every slot of a multi-page archive, readers, abandoners, openers that fail after the descriptor was obtained) performing up to 14 sessions on one file under the seeded scheduler with statement-level preemption; invariants after every event, final counter, lock-lifetime probes and a porcupine linearizability check of the session history. Non-trivial: lock contention actually occurred (an opener parked in the lock hook while a handle was held) or a failed open was probed; distinct = distinct case hash; distinct interleavings = distinct context-switch signatures")
-	c13.quick = tierCfg{runs: 3000, budget: 45}
-	c13.thorough = tierCfg{runs: 300000, budget: 1200}
+	c13.quick = tierCfg{runs: 4000, budget: 60}
+	c13.thorough = tierCfg{runs: 300000, budget: 1500}
 	c13.technique = "deterministic simulation: seeded scheduler over statement-level yield points, real flock with simulated waiting, porcupine linearizability check of recorded session histories"
 	props["C13"] = c13
-	c05 := lib("seeded histories of writes interleaved with Sync on multi-page layouts; every operation boundary of every history is an abandonment point (file bytes compared with the last synced bytes; history replayed up to the boundary on a fresh file, handle closed without Sync, file re-read). Non-trivial: abandonment after a sync with later writes, sync with pending writes, slot straddling a page; distinct = distinct case hash")
+	c05 := lib("seeded histories of writes interleaved with Sync on multi-page layouts; every operation boundary of every history is an abandonment point (file bytes compared with the last synced bytes; history replayed up to the boundary on a fresh file, handle closed without Sync, file re-read). In 1 of 13 runs a CLI copy / sum-copy into an existing destination is instead killed at the first, the last and one seeded occurrence of every distinct (goroutine, yield site) pair reached by a fault-free twin run (up to 500 process deaths per case), or made to fail by /dev/full or a layout mismatch: every pre-existing file must then hold its pre-command bytes or, once Sync was reached, the bytes the completed command leaves. Non-trivial: abandonment after a sync with later writes, sync with pending writes, slot straddling a page, a command killed before / after Sync began; distinct = distinct case hash")
 	c05.level = "fault_enumeration"
-	c05.quick = tierCfg{runs: 1500, budget: 40}
-	c05.thorough = tierCfg{runs: 100000, budget: 900}
+	c05.quick = tierCfg{runs: 1500, budget: 60}
+	c05.thorough = tierCfg{runs: 100000, budget: 1500}
 	props["C05"] = c05
 	c06 := lib("seeded histories written by whispertool and mirrored by go-whisper; after every sync the bytes are parsed by an independent format parser and read by both implementations over windows selecting each archive. Non-trivial: a cross-read of a non-degenerate window happened; distinct = distinct case hash")
-	c06.quick = tierCfg{runs: 3000, budget: 40}
-	c06.thorough = tierCfg{runs: 200000, budget: 900}
+	c06.quick = tierCfg{runs: 20000, budget: 60}
+	c06.thorough = tierCfg{runs: 2000000, budget: 1500}
 	props["C06"] = c06
 }
